@@ -387,16 +387,15 @@ theorem pyIndex_nat {α} (l : List α) (k : Nat) :
   unfold pyIndex
   have h1 : ¬ ((k : Int) < 0) := by omega
   simp only [h1, if_false, Int.toNat_natCast]
+  cases l[k]? <;> rfl
 
 /-- the iteration loop over an object whose `[k]` is `pyIndex` of a list yields that list -/
 theorem iterLoop_spec {α β} (l : List α) (f : α → β) (get : Nat → Except Err β)
-    (hget : ∀ k : Nat, get k = (pyIndex l (k : Int)).map f) (fuel k : Nat) (hf : l.length < fuel + k) :
+    (hget : ∀ k : Nat, get k = (pyIndex l (k : Int)).map f) (fuel k : Nat) (hf : l.length < fuel + k)
+    (hk : k ≤ l.length) :
     iterLoop get fuel k = .ok ((l.drop k).map f) := by
   induction fuel generalizing k with
-  | zero =>
-    unfold iterLoop
-    have : l.drop k = [] := List.drop_of_length_le (by omega)
-    omega
+  | zero => omega
   | succ fuel ih =>
     unfold iterLoop
     rw [hget k, pyIndex_nat]
@@ -407,7 +406,7 @@ theorem iterLoop_spec {α β} (l : List α) (f : α → β) (get : Nat → Excep
     | some a =>
       have hlt := (List.getElem?_eq_some_iff.mp hk).1
       simp only [Except.map]
-      rw [ih (k + 1) (by omega)]
+      rw [ih (k + 1) (by omega) (by omega)]
       have hd : l.drop k = a :: l.drop (k + 1) := by
         rw [List.drop_eq_getElem_cons hlt]
         congr 1
@@ -417,7 +416,7 @@ theorem iterLoop_spec {α β} (l : List α) (f : α → β) (get : Nat → Excep
 /-- `list(text)` is the list of the one-character texts of its cells -/
 theorem iter_spec (t : Text) (h : LenOK t) : t.iter = .ok (t.cells.map cellText) := by
   unfold Text.iter
-  rw [iterLoop_spec t.cells cellText _ (fun k => getIndex_spec t h k) _ 0 (by omega)]
+  rw [iterLoop_spec t.cells cellText _ (fun k => getIndex_spec t h k) _ 0 (by omega) (by omega)]
   simp
 
 theorem chunk_getIndex_eq (c : Chunk) (i : Int) :
@@ -430,7 +429,7 @@ theorem chunk_getIndex_eq (c : Chunk) (i : Int) :
 theorem chunk_iter_spec (c : Chunk) :
     c.iter = .ok (c.cells.map (fun x => (⟨x.2, [x.1]⟩ : Chunk))) := by
   unfold Chunk.iter
-  rw [iterLoop_spec c.cells _ _ (fun k => chunk_getIndex_eq c k) _ 0 (by simp)]
+  rw [iterLoop_spec c.cells _ _ (fun k => chunk_getIndex_eq c k) _ 0 (by simp) (by omega)]
   simp
 
 end CHText
